@@ -86,7 +86,7 @@ Section Checker.
 
   Definition in_cls (c : cls) (l : list cls) : bool := existsb (cls_eqb c) l.
 
-  Definition has_required (a : ann) : bool :=
+  Definition has_required_tables (a : ann) : bool :=
     match ann_name a with
     | Some n =>
         match req_exact cfg n with
@@ -94,6 +94,12 @@ Section Checker.
         | None => match req_min cfg n with Some k => Nat.leb k (n_type_args a) | None => true end
         end
     | None => true
+    end.
+  (* Tuple[()] (typing alias named Tuple with __args__ == ()) is complete when the source says so *)
+  Definition has_required (a : ann) : bool :=
+    match a with
+    | ATupleEmpty SpTyping | AGeneric SpTyping TTuple [] => tuple_empty_ok cfg || has_required_tables a
+    | _ => has_required_tables a
     end.
 
   (* plain class at the end of _is_instance *)
@@ -138,6 +144,10 @@ Section Checker.
         | Ok _ => if existsb (tname_eqb TTuple) (conv_origins cfg) then Ok tt else Raise RuntimeErrorC
         end
     | ATupleEmpty SpBuiltin => if existsb (tname_eqb TTuple) (conv_origins cfg) then Ok tt else Raise RuntimeErrorC
+    (* collections.abc.X[...] / collections.deque[...]: the origin is not in the conversion chain *)
+    | AGeneric SpAbc o args => match go args with Raise e => Raise e | Ok _ => Raise RuntimeErrorC end
+    | ATupleVar SpAbc e => match conv_ok e with Raise x => Raise x | Ok _ => Raise RuntimeErrorC end
+    | ATupleEmpty SpAbc => Raise RuntimeErrorC
     | _ => Ok tt
     end.
 
@@ -425,7 +435,7 @@ Section Checker.
     | ANewType s =>
         match s with
         | ACls c => (Ok (isinstance v c), tv)
-        | _ => (Raise TypeErrorC, tv)
+        | _ => if newtype_recurses cfg then is_inst s v tv else (Raise TypeErrorC, tv)
         end
     | AFwdRef n =>
         match ctx n with
@@ -434,13 +444,13 @@ Section Checker.
         end
     | AStr _ => (Raise AttributeErrorC, tv)
     | AGeneric SpTyping o args => generic_f (fun x => is_inst x) o args v tv
-    | AGeneric SpBuiltin o args =>
+    | AGeneric _ o args =>
         match conv_ok a with Raise e => (Raise e, tv) | Ok _ => generic_f (fun x => is_inst x) o args v tv end
     | ATupleVar SpTyping e => tuple_var_f (fun x => is_inst x) e v tv
-    | ATupleVar SpBuiltin e =>
+    | ATupleVar _ e =>
         match conv_ok a with Raise x => (Raise x, tv) | Ok _ => tuple_var_f (fun x => is_inst x) e v tv end
     | ATupleEmpty SpTyping => generic_f (fun x => is_inst x) TTuple [] v tv
-    | ATupleEmpty SpBuiltin =>
+    | ATupleEmpty _ =>
         match conv_ok a with Raise x => (Raise x, tv) | Ok _ => generic_f (fun x => is_inst x) TTuple [] v tv end
     | ABare o =>
         match special_checker cfg o with
